@@ -702,8 +702,11 @@ class _DataOperationContextInjectorProbeNode(_DataOperationNode):
 
     @classmethod
     def get_created_keys(cls) -> List[str]:
-        """Return context keys injected by this node."""
-        return [cls.context_key]
+        """Return context keys injected by this node and by its processor."""
+        processor_keys = list(getattr(cls.processor, "get_created_keys", lambda: [])())
+        return [cls.context_key] + [
+            key for key in processor_keys if key != cls.context_key
+        ]
 
     @override
     def _process_single_item_with_context(self, payload: Payload) -> Payload:
